@@ -27,6 +27,8 @@ func systematicCases() []genCase {
 		sysCases = append(sysCases, famGetline()...)
 		sysCases = append(sysCases, famBuiltins()...)
 		sysCases = append(sysCases, famConcat()...)
+		sysCases = append(sysCases, famEvalOrder()...)
+		sysCases = append(sysCases, famLogicValues()...)
 	})
 	return sysCases
 }
@@ -254,6 +256,80 @@ func famConcat() []genCase {
 			}
 			p := fmt.Sprintf("{ %sx = 0.25; r = %s; print r; print %s; s = %s; print (r == s), length(r); a[%s] = 1; for (k in a) print k; print %s }", cf, chain, chain, grouped, chain, strings.Join(parts, ", "))
 			out = append(out, mk("concat", p+"\n", "2.50 y\n"))
+		}
+	}
+	return out
+}
+
+// famEvalOrder: operands with side effects on each other. The order in which a subscript, a
+// field index and a right-hand side are evaluated is part of the program's meaning as the tree
+// defines it; the compiler has separate lowerings for statement and expression position, for
+// globals, locals, array elements and fields, and they must all agree with it.
+func famEvalOrder() []genCase {
+	var out []genCase
+	ops := []string{"=", "+=", "-=", "*=", "/=", "%=", "^="}
+	funcs := "function f() { print \"f\"; return ++c }\nfunction g() { print \"g\"; return ++c }\n"
+	type tgt struct{ name, lhs, rhs, reset, dump string }
+	targets := []tgt{
+		{"arr-incr-sub", "A[i++]", "i", "i = 1; delete A; A[1] = 10; A[2] = 20", "print i; for (k = 0; k < 4; k++) print k, (k in A), A[k]"},
+		{"arr-incr-rhs", "A[n]", "n++", "n = 1; delete A; A[1] = 10; A[2] = 20", "print n; for (k = 0; k < 4; k++) print k, (k in A), A[k]"},
+		{"arr-calls", "A[f()]", "g()", "c = 0; delete A; A[1] = 10; A[2] = 20", "print c; for (k = 0; k < 4; k++) print k, (k in A), A[k]"},
+		{"arr-multi-calls", "A[f(), g()]", "f() g()", "c = 0; delete A", "print c, length(A); for (k = 1; k < 9; k++) for (m = 1; m < 9; m++) if ((k, m) in A) print k, m, A[k, m]"},
+		{"field-incr-idx", "$(i++)", "i", "i = 1; $0 = \"10 20 30\"", "print i; print; print NF"},
+		{"field-incr-rhs", "$(n)", "n++", "n = 1; $0 = \"10 20 30\"", "print n; print; print NF"},
+		{"field-calls", "$(f())", "g()", "c = 0; $0 = \"10 20 30\"", "print c; print; print NF"},
+		{"field-rhs-sets-record", "$2", "($0 = \"7 8 9 10\")", "$0 = \"10 20 30\"", "print; print NF"},
+		{"var-self", "x", "(x = 5)", "x = 2", "print x"},
+		{"var-postincr", "x", "x++", "x = 2", "print x"},
+		{"var-nf", "NF", "(NF = 2)", "$0 = \"1 2 3 4\"", "print; print NF"},
+		{"arr-rhs-deletes", "A[1]", "h()", "delete A; A[1] = 10", "print length(A), A[1]"},
+		{"arr-sub-getline", "A[NR]", "(getline line < \"in0\")", "delete A", "for (k in A) print k, A[k]; print line"},
+	}
+	for _, t := range targets {
+		for _, op := range ops {
+			asg := t.lhs + " " + op + " " + t.rhs
+			src := funcs + "function h() { delete A; return 3 }\n" +
+				"BEGIN {\n\t" + t.reset + "\n\t" + asg + "\n\t" + t.dump + "\n" +
+				"\t" + t.reset + "\n\ty = (" + asg + ")\n\tprint \"value\", y\n\t" + t.dump + "\n" +
+				"\t" + t.reset + "\n\tprint (" + asg + ") \"\"\n\t" + t.dump + "\n" +
+				"\t" + t.reset + "\n\tif ((" + asg + ") || 1) " + asg + "\n\t" + t.dump + "\n}\n"
+			out = append(out, mk("evalorder", src, ""))
+			// the same inside a function, on locals
+			if strings.HasPrefix(t.name, "arr-") && !strings.Contains(t.rhs, "h()") && !strings.Contains(t.lhs, "NR") {
+				body := strings.NewReplacer("A[", "L[", " A", " L", "(A", "(L").Replace
+				lsrc := funcs + "function t(L, i, n, k, y, m) {\n\t" + body(t.reset) + "\n\t" + body(asg) + "\n\t" + body(t.dump) + "\n" +
+					"\t" + body(t.reset) + "\n\ty = (" + body(asg) + ")\n\tprint \"value\", y\n\t" + body(t.dump) + "\n}\nBEGIN { t(Q); t(Q) }\n"
+				out = append(out, mk("evalorder-local", lsrc, ""))
+			}
+		}
+	}
+	// operators and calls: left operand before right one, every argument once
+	exprs := []string{"f() + g()", "f() - g() * f()", "f() g()", "f() g() f()", "f() < g()", "f() ~ g()", "(f(), g()) in A", "f() in A", "h2(f(), g(), f())", "f() ? g() : f()",
+		"(f() > 5) ? g() : f()", "f() && g()", "(f() > 5) && g()", "f() || g()", "(f() > 5) || g()", "substr(\"abcdef\", f(), g())", "index(f() \"x\", g())", "split(f() \" \" g(), A)",
+		"sprintf(\"%s-%s-%s\", f(), g(), f())", "A[f()] A[g()]", "A[f()]++ + A[g()]++", "$(f()) $(g())", "-f() ^ g()", "f() ^ g() ^ f()", "!f() g()", "f() % g() / f()"}
+	for _, e := range exprs {
+		src := funcs + "function h2(a, b, d) { return a \":\" b \":\" d }\nBEGIN { $0 = \"p q r s t u v w\"; A[1] = \"one\"; A[2] = \"two\"; A[1, 2] = \"pair\"\n\tprint (" + e + ")\n\tprint c\n\tx = " + e + "\n\tprint x, c\n\tif (" + e + ") print \"T\", c; else print \"F\", c\n}\n"
+		out = append(out, mk("evalorder-expr", src, ""))
+	}
+	return out
+}
+
+// famLogicValues: the value of && || ! is the number 1 or 0 whatever the operands are (unset, empty,
+// numeric strings from input that are false, strings), in every place a value can be used.
+func famLogicValues() []genCase {
+	var out []genCase
+	lefts := []string{"u", "\"\"", "$1", "$2", "0", "\"0\"", "\"a\"", "1", "$3", "A[\"nokey\"]", "substr(\"x\", 2)", "$9", "-0", "\"0.0\"", "$1 + 0"}
+	rights := []string{"1 < 2", "2 < 1", "$3 ~ /x/", "$3 !~ /x/", "!u", "(\"k\" in A)", "\"s\"", "0", "u", "/ab/", "(1 < 2 && 2 < 3)", "(u || 0)", "$2", "$1", "!$2", "(1 < 2)", "1", "\"\"", "x = 5", "$1 == 0"}
+	input := "0.0 +0 abx\n0 1 x\n  zero\n1e0 0x1 ab\n"
+	for _, l := range lefts {
+		for _, r := range rights {
+			for _, op := range []string{"&&", "||"} {
+				e := l + " " + op + " " + r
+				src := "function show(v) { print \"[\" v \"]\", length(v), (v == \"\"), (v == 0), v + 0 }\n" +
+					"BEGIN { A[\"k\"] }\n{ x = 0; v = (" + e + "); show(v)\n\tshow(" + e + ")\n\tprint (" + e + "), !(" + e + "), (" + e + ") \"\", -(" + e + ")\n" +
+					"\tdelete C; C[" + e + "]++; for (k in C) print \"key\", k\n\tif (" + e + ") print \"T\"; else print \"F\"\n\tw = !(" + l + "); show(w); show(!!(" + l + "))\n}\n"
+				out = append(out, mk("logic-values", src, input))
+			}
 		}
 	}
 	return out
